@@ -255,6 +255,9 @@ pub fn generate(world: &World, seed: u64, run: u64) -> Trace {
     for _ in 0..6 {
         sampled.push(Fault::BitFlip(pick_offset(&mut rng) * 8 + rng.below(8) as usize));
     }
+    for _ in 0..3 {
+        sampled.push(Fault::TransientAt(pick_offset(&mut rng)));
+    }
     {
         let n = 1 + rng.below(5) as usize;
         let zero = rng.chance(1, 3);
@@ -318,11 +321,14 @@ pub fn fault_plan(t: &Trace, medium_len: usize, tier: Tier) -> Vec<Fault> {
         for p in 0..medium_len * 8 {
             v.push(Fault::BitFlip(p));
         }
+        for c in 1..medium_len {
+            v.push(Fault::TransientAt(c));
+        }
     }
     for f in &t.sampled_faults {
         if !v.contains(f) {
             let ok = match f {
-                Fault::IoErrorAt(c) | Fault::TruncateAt(c) => *c < medium_len,
+                Fault::IoErrorAt(c) | Fault::TruncateAt(c) | Fault::TransientAt(c) => *c < medium_len,
                 Fault::BitFlip(p) => *p < medium_len * 8,
                 _ => true,
             };
